@@ -162,7 +162,8 @@ def build(spec):
         if mg.get("battery"):
             bt = mg["battery"]
             Battery("Bat", MB[0], inj_p_max=N(bt.get("p", "1")), inj_q_max=N(bt.get("q", "1")), E_max=N(bt.get("e", "2")),
-                    SOC_min=N(bt.get("smin", "1/10")), SOC_max=N(bt.get("smax", "1")), n_battery=N(bt.get("eta", "1")))
+                    SOC_min=N(bt.get("smin", "1/10")), SOC_max=N(bt.get("smax", "1")), n_battery=N(bt.get("eta", "1")),
+                    **({"SOC_start": N(bt["soc_start"])} if bt.get("soc_start") is not None else {}))
     if ict is not None:
         inet = ICTNetwork(ps)
         inet.add_nodes(list(ict_nodes.values()))
